@@ -35,6 +35,15 @@ def render_rules(src, posix=False, use_scopes=False, xseed=None, auto=(), vact=N
         return "<" + ",".join(names[s - 1] for s in scs) + ">"
 
     done_auto = []
+    pending_star = None
+    def nested_star(k):
+        """is rule k (a <*> rule) directly followed in the file by a rule with a proper start-condition list?"""
+        for i, e in enumerate(layout):
+            if e == ["rule", k] or tuple(e) == ("rule", k):
+                if i + 1 < len(layout) and layout[i + 1][0] == "rule":
+                    n = src["rules"][layout[i + 1][1] - 1]
+                    return bool(n["scs"]) and n["scs"] != [0]
+        return False
     for kind, k in layout:
         if kind == "rule":
             r = src["rules"][k - 1]
@@ -51,10 +60,20 @@ def render_rules(src, posix=False, use_scopes=False, xseed=None, auto=(), vact=N
                 act = "{ %s if (vnever) { %s } }" % ((vact % k if vact else "VACT(%d)" % k), " ".join({"reject": "REJECT;", "yymore": "yymore();"}[a] for a in auto))
                 done_auto.append(1)
             if r.get("bar"): act = "|"          # same action as the next rule
-            if use_scopes and r["scs"] and r["scs"] != [0]:
+            if use_scopes and pending_star is not None and r["scs"] and r["scs"] != [0]:
+                # a <*> rule written inside the scope of the rule that follows it: the prefix applies to that rule
+                # alone, the rest of the scope keeps the scope's conditions
+                lines.append("%s{" % prefix(r["scs"]))
+                lines.append("<*>%s" % pending_star)
+                lines.append("%s  %s" % (pat, act))
+                lines.append("}")
+                pending_star = None
+            elif use_scopes and r["scs"] and r["scs"] != [0]:
                 lines.append("%s{" % prefix(r["scs"]))
                 lines.append("%s  %s" % (pat, act))
                 lines.append("}")
+            elif use_scopes and r["scs"] == [0] and act != "|" and nested_star(k):
+                pending_star = "%s  %s" % (pat, act)
             else:
                 lines.append("%s%s  %s" % (prefix(r["scs"]), pat, act))
         else:
@@ -103,6 +122,7 @@ def emit_l(src, cfg):
     if c["posix"]: opts.append("posix-compat")
     if src.get("ci"): opts.append("case-insensitive")
     if c["flavour"] == "r": opts.append("reentrant")
+    if c["flavour"] == "cxx": opts.append('c++ yyclass="VLexer"')
     hdr = []
     vact = None
     if c["flavour"] == "c99":
